@@ -492,6 +492,32 @@ theorem memoRun_transparent {κ ν : Type} [DecidableEq κ] (f : κ → ν) (evi
     simp only [memoRun, List.map_cons]
     exact ⟨by rw [a.1, b.1], b.2⟩
 
+/-- A cache shared between instances is transparent when the function does not depend on the instance. -/
+theorem memoRunShared_transparent {ι κ ν : Type} [DecidableEq κ] (f : ι → κ → ν)
+    (hind : ∀ i j k, f i k = f j k) (cache : List (κ × ν)) (hv : ∀ p ∈ cache, ∀ i, p.2 = f i p.1)
+    (qs : List (ι × κ)) :
+    (memoRunShared f cache qs).1 = qs.map (fun q => f q.1 q.2) ∧
+      ∀ p ∈ (memoRunShared f cache qs).2, ∀ i, p.2 = f i p.1 := by
+  induction qs generalizing cache with
+  | nil => exact ⟨rfl, hv⟩
+  | cons q qs ih =>
+    simp only [memoRunShared, List.map_cons]
+    unfold memoGetShared
+    cases h : cacheFind cache q.2 with
+    | some v =>
+      have e := hv _ (cacheFind_mem cache q.2 v h) q.1
+      have b := ih cache hv
+      exact ⟨by simp only []; rw [b.1]; exact congrArg (· :: _) e, b.2⟩
+    | none =>
+      have hv' : ∀ p ∈ (q.2, f q.1 q.2) :: cache, ∀ i, p.2 = f i p.1 := by
+        intro p hp i
+        simp only [List.mem_cons] at hp
+        rcases hp with e | e
+        · subst e; exact hind _ _ _
+        · exact hv p e i
+      have b := ih _ hv'
+      exact ⟨by simp only []; rw [b.1], b.2⟩
+
 /-! ### Sequences of files in one process -/
 
 theorem genFile_counters_length {δ : Type} (I : Interp δ) (P : List Tpl) (fuel : Nat) (resetPerFile : Bool)
